@@ -37,7 +37,9 @@ def make_dist(c):
         d = D.Normal(jnp.arange(dim) * 0.3, 0.5 + jnp.arange(dim) * 0.2)
         return bd.perturb(d, float(c["pscale"]), int(c["seed"]))
     if k == "additive":
-        base = D.Normal(jnp.zeros(dim), jnp.full(dim, 1.2))
+        # "sharp": an over-confident estimator - logits of mismatched rows differ by thousands of nats, the regime
+        # where a softmax cross-entropy must be evaluated stably (max-subtraction)
+        base = D.Normal(jnp.zeros(dim), jnp.full(dim, 0.02 if c.get("sharp") else 1.2))
         node = bd.build_leaf({"k": "AdditiveCondition", "shape": [dim], "cond": [cond], "seed": int(c["seed"]), "module": "mlp"},
                              float(c["pscale"]))
         return D.Transformed(base, node.obj)
@@ -228,6 +230,9 @@ def cases(draw):
         c["cond"] = 2
         c["batch"] = draw(st.integers(2, 8))
         c["n_contrastive"] = draw(st.integers(1, c["batch"]))
+        c["sharp"] = draw(st.integers(0, 3)) == 0
+        if c["sharp"]:
+            c["dist"] = "additive"
     if c["dist"] == "coupling":
         c["dim"] = max(2, c["dim"])
     return c
